@@ -15,10 +15,11 @@ Definition run_conn_run (a : args) : args :=
   let scripts := skipn 5 a in
   let total := length (arg a 4) in
   let '(o, w) := run_loop norm_impl maxc (total + 4) (new_parser B) scripts 0 w0 in
+  let cnt := [consumed w; len (arg a 1) - len (rscript w); len (arg a 2) - len (wscript w)] in
   let tail := [[200]; [if stopped w && negb (stop =? 0) && (match o with ODeadlock => true | _ => false end) then 0 else 2; 1]] in
   match o with
-  | ORet => [[0; epoch w]; [consumed w]; wlog w] ++ rev (events w) ++ tail
-  | ODeadlock => [[1; epoch w]; [consumed w]; wlog w] ++ rev (events w) ++ tail
-  | OPanic n => [[888888]; [consumed w]; wlog w] ++ rev (events w) ++ tail
-  | OFuel => [[888887]; [consumed w]; wlog w] ++ rev (events w) ++ tail
+  | ORet => [[0; epoch w]; cnt; wlog w] ++ rev (events w) ++ tail
+  | ODeadlock => [[1; epoch w]; cnt; wlog w] ++ rev (events w) ++ tail
+  | OPanic n => [[888888]; cnt; wlog w] ++ rev (events w) ++ tail
+  | OFuel => [[888887]; cnt; wlog w] ++ rev (events w) ++ tail
   end.
